@@ -59,10 +59,10 @@ Full statement / proved / missing
                        Callable: the creator `newCallableType3` + `tupleFromArgs(true, …)` and `CallableType.Parameters`
                        are modelled in full, degenerate forms included.  `CallableShape` carves out exactly the shapes that
                        print invertibly; outside it the statement is FALSE of the code (known finding C05-callable-block;
-                       witnesses `C05_callable_unit_dropped`, `C05_callable_leading_tuple`).  Note that
-                       `CallableType.Equals` answers true for ANY two Callables (`Ty.eqGo`): on the implementation the
-                       "equal type" half of the property is vacuous for Callable; the theorem here proves structural
-                       equality, which is stronger.
+                       witnesses `C05_callable_unit_dropped`, `C05_callable_leading_tuple`).  Since /repo 3d635fb
+                       `CallableType.Equals` is structural (before, any two Callables were equal and the "equal type"
+                       clause was vacuous for them): the theorem's structural equality is now what the implementation
+                       observes, and outside `CallableShape` the re-parsed type is genuinely unequal there too.
                        Modelled and compared on every run but outside the theorem's quantifier: unknown type names (they
                        resolve to a TypeReference) and the second spellings of core names — both resolve to types that are
                        inside it.
